@@ -2,6 +2,7 @@ package fw
 
 import (
 	"go/token"
+	"go/types"
 
 	"golang.org/x/tools/go/ssa"
 )
@@ -18,6 +19,43 @@ type FlowSpec struct {
 	// All: every alternative (phi edges, all stores to a local) must derive from a source.
 	// Otherwise one alternative suffices.
 	All bool
+	// Family (optional): the functions (a function and its closures) in which stores to
+	// struct fields are looked up when a value is loaded from a field: a load of T.f then
+	// derives from what is stored to T.f anywhere in the family (field-sensitive,
+	// object-insensitive).
+	Family []*ssa.Function
+}
+
+// FamilyOf returns fn and all its (transitively) nested anonymous functions.
+func FamilyOf(fn *ssa.Function) []*ssa.Function {
+	out := []*ssa.Function{fn}
+	for _, a := range fn.AnonFuncs {
+		out = append(out, FamilyOf(a)...)
+	}
+	return out
+}
+
+// StoresToField lists values stored to field #idx of struct type st within the family.
+func StoresToField(family []*ssa.Function, st *types.Struct, idx int) []ssa.Value {
+	var out []ssa.Value
+	for _, f := range family {
+		for _, b := range f.Blocks {
+			for _, ins := range b.Instrs {
+				s, ok := ins.(*ssa.Store)
+				if !ok {
+					continue
+				}
+				fa, ok := s.Addr.(*ssa.FieldAddr)
+				if !ok || fa.Field != idx {
+					continue
+				}
+				if ds := derefStruct(fa.X.Type()); ds != nil && types.Identical(ds, st) {
+					out = append(out, s.Val)
+				}
+			}
+		}
+	}
+	return out
 }
 
 // DerivesFrom reports whether v derives from a source under spec.
@@ -89,7 +127,16 @@ func derives(v ssa.Value, s FlowSpec, seen map[ssa.Value]bool, depth int) bool {
 					return false
 				}
 				return alts(vals)
-			case *ssa.FieldAddr, *ssa.IndexAddr:
+			case *ssa.FieldAddr:
+				if len(s.Family) > 0 {
+					if st := derefStruct(a.X.Type()); st != nil {
+						if vals := StoresToField(s.Family, st, a.Field); len(vals) > 0 {
+							return alts(vals)
+						}
+					}
+				}
+				return derives(a, s, seen, depth+1)
+			case *ssa.IndexAddr:
 				return derives(a, s, seen, depth+1)
 			}
 			return derives(x.X, s, seen, depth+1)
